@@ -84,7 +84,7 @@ PROPS["C14"] = dict(
 
 PROPS["C10"] = dict(
     verus_units=["core", "valid"],
-    technique="Verus contract on state::insert_block (iff + atomic reject) over assumed contracts of ValidationContext::new / push; validity = unit valid",
+    technique="Verus contract on state::insert_block (iff + atomic reject), the admission checks of ValidationContext::new, maybe_process_response; validity = all obligations of unit valid (C11, C12) are part of this check",
     level_text="unbounded deductive proof that insert_block succeeds iff the parent is in the unstable tree, the block is not already a child of it and "
                "block validation succeeds at the message time; on failure the whole state is unchanged; on success exactly that block is appended",
     level_note="the admission checks of ValidationContext::new (connected? already a child of its parent?) are verified as a slice against the same "
